@@ -212,8 +212,8 @@ def malformed_frame(rng, own, peers):
         if ctrl == 17:
             data[1] = rng.choice([0, 0, 1, 2, 3, 255])
             data[2] = rng.choice([0, 1, 1, 2, 3, 4, 255])
-            if rng.random() < 0.6:
-                sa, da = peers[0], own
+            if rng.random() < 0.7:
+                sa, da = rng.choice(peers), own
         ln = rng.choice([8, 8, 8, 8, 0, 1, 3, 7])
         return can_id(rng.choice([7, 6, 0]), TP_CM, da, sa), data[:ln]
     if kind < 0.9:
@@ -236,10 +236,10 @@ def hostile_script(rng, repo, length=None):
     t = sim.START_US
     app = []
     for _ in range(length):
-        t += rng.choice([0, 0, 1, 1000, 50000, 200000, 760000, 1260000, 3100000]) if rng.random() < 0.9 else rng.randrange(0, 1300000)
-        if rng.random() < 0.15:
+        t += rng.choice([0, 0, 0, 1, 1000, 1000, 50000, 200000, 760000, 1260000, 3100000]) if rng.random() < 0.9 else rng.randrange(0, 1300000)
+        if rng.random() < 0.2:
             data = rand_payload(rng, rng.choice([9, 20, 30]))
-            dst = rng.choice([peer, 255])
+            dst = rng.choice([peer, 0x77, 0x77, 255])      # 0x77: nobody answers, only the injected frames do
             app.append((t, lambda r, data=data, dst=dst: r.send(0, 0, 208 if dst != 255 else 254, dst if dst != 255 else 1, 6, own, data, latency)))
         else:
             cid, data = malformed_frame(rng, own, [peer, 0x77])
